@@ -170,9 +170,9 @@ def load_known(prop):
         except FileNotFoundError:
             continue
         for f in data.get('findings', []):
-            if f.get('property') == prop and f.get('status') == 'known':
-                out[f['key']] = f
-    return out
+            if f.get('property') == prop:
+                out[f['key']] = f        # later files win (findings.d/<prop>.json over the merged known_findings.json)
+    return dict((k, f) for k, f in out.items() if f.get('status') == 'known')
 
 
 def match_known(known, key, severity):
